@@ -456,8 +456,9 @@ func fromAtomicAdd(p *Prog, v ssa.Value, field string, depth int) bool {
 }
 
 // listingRule: the predicate closure of a listing method compares the expected things.
-//   per-device listing: entry.ClientFeature.Device().Ski() == <param>.Ski()
-//   per-feature listing: DeepEqual(*entry.ServerFeature.Address(), <param>)
+//
+//	per-device listing: entry.ClientFeature.Device().Ski() == <param>.Ski()
+//	per-feature listing: DeepEqual(*entry.ServerFeature.Address(), <param>)
 func listingRule(p *Prog, r *Report, rule string, m mgrSpec) {
 	for _, which := range []string{m.List, m.OnFeat} {
 		fn := p.Method("spine", m.Type, which)
